@@ -224,6 +224,22 @@ func (s *Sim) crashPoint(inc string) string {
 	}
 	host := d.host
 	switch ca.Mode {
+	case "kill_master_mysql":
+		// not a crash of the manager: the recorded master's MySQL dies at this call boundary
+		if sv := s.mysql.servers[s.recordedMaster()]; sv != nil {
+			s.trace("CRASHPOINT kill-master-mysql %s n=%d", inc, ca.N)
+			s.stats.Faults["master_mysql_killed_mid_iteration"]++
+			s.mysql.crashServer(sv, 0)
+			sv.lastWorldChange = s.now()
+			if ca.RestartMs > 0 {
+				s.after(ms(ca.RestartMs), "restart-master-mysql", func() { s.mysql.startServer(sv) })
+			}
+		}
+		return ""
+	case "fail":
+		s.trace("CRASHPOINT fail-call %s n=%d", inc, ca.N)
+		s.stats.Faults["single_call_failed"]++
+		return "fail"
 	case "zkcut":
 		s.trace("CRASHPOINT zkcut %s n=%d", inc, ca.N)
 		s.stats.Faults["crashpoint_zkcut"]++
@@ -253,6 +269,8 @@ func (s *Sim) deliverSQL(c *call, flt string) {
 		flt = "crash_before"
 	case "after":
 		flt = "crash_after"
+	case "fail":
+		flt = "err:1105"
 	}
 	if flt == "crash_before" {
 		if d := s.daemons[c.src]; d != nil {
@@ -430,6 +448,8 @@ func (s *Sim) zkFault(c *memConn, op int32, req []byte) string {
 			s.after(0, "crash-after-zk", func() { s.killDaemon(dd, false) })
 		}
 		return ""
+	case "fail":
+		return "reset_before"
 	}
 	if f, ok := s.explicit[key]; ok {
 		if strings.HasPrefix(f, "zk:") {
